@@ -1,4 +1,4 @@
-import MaltModel.Analysis.Activity
+import MaltModel.Analysis.ActivityHyp
 /-
 Helper development for `Props/C08.lean`: the activity model is *compositional* on the fragment
 without comprehensions and parameter annotations — visiting a node adds a syntactically determined
@@ -318,44 +318,6 @@ namespace Malt.Analysis
 open Malt.Py
 
 /-! ### the fragment and the effect of expressions -/
-
-def isWithitem : Expr → Bool
-  | .withitem .. => true
-  | _ => false
-
-def isPlainArg : Expr → Bool
-  | .arg _ _ [] => true
-  | _ => false
-
-mutual
-/-- Expressions of the fragment: no comprehension, no parameter annotation, well-formed lambdas. -/
-def FragE : Expr → Bool
-  | .name .. | .const .. | .noneMarker => true
-  | .attr _ v _ _ => FragE v
-  | .subscript _ v s _ => FragE v && FragE s
-  | .call _ f as ks => FragE f && FragEs as && FragEs ks
-  | .keyword _ _ _ v => FragE v
-  | .boolop _ _ vs => FragEs vs
-  | .unary _ _ x => FragE x
-  | .binop _ _ l r => FragE l && FragE r
-  | .compare _ l _ cs => FragE l && FragEs cs
-  | .ifexp _ t b o => FragE t && FragE b && FragE o
-  | .lambda _ args body =>
-      (match args with
-       | .arguments _ po ar va ko kd kw df =>
-           po.all isPlainArg && ar.all isPlainArg && va.all isPlainArg && ko.all isPlainArg && kw.all isPlainArg &&
-           FragEs kd && FragEs df
-       | _ => false) && FragE body
-  | .seq _ _ es _ => FragEs es
-  | .starred _ v _ => FragE v
-  | .namedexpr _ t v => FragE t && FragE v
-  | .comp .. | .comprehension .. | .arguments .. | .arg .. => false
-  | .withitem _ c v => FragE c && FragEs v
-  | .other _ _ _ kids => FragEs kids
-def FragEs : List Expr → Bool
-  | [] => true
-  | e :: es => FragE e && FragEs es
-end
 
 /-- `_in_constructor` as a function of the function/class stack. -/
 def inCtor : List FnCtx → Bool
@@ -864,38 +826,6 @@ namespace Malt.Analysis
 open Malt.Py
 
 /-! ### statements -/
-
-mutual
-/-- Statements of the fragment: no async construct, no `EXTRA_LOOP_TEST`, expressions of the fragment. -/
-def FragS : Stmt → Bool
-  | .functionDef _ _ args body decos returns isAsync =>
-      !isAsync &&
-      (match args with
-       | .arguments _ po ar va ko kd kw df =>
-           po.all isPlainArg && ar.all isPlainArg && va.all isPlainArg && ko.all isPlainArg && kw.all isPlainArg &&
-           FragEs kd && FragEs df
-       | _ => false) && FragEs decos && FragEs returns && FragSs body
-  | .classDef _ _ bases kws body decos => FragEs bases && FragEs kws && FragEs decos && FragSs body
-  | .ret _ v => FragEs v
-  | .delete _ ts => FragEs ts
-  | .assign _ ts v => FragEs ts && FragE v
-  | .augAssign _ t _ v => FragE t && FragE v
-  | .annAssign _ t an v _ => FragE t && FragE an && FragEs v
-  | .for_ _ t it body orelse extra isAsync => !isAsync && extra.isEmpty && FragE t && FragE it && FragSs body && FragSs orelse
-  | .while_ _ t body orelse => FragE t && FragSs body && FragSs orelse
-  | .if_ _ t body orelse => FragE t && FragSs body && FragSs orelse
-  | .with_ _ items body isAsync => !isAsync && FragEs items && items.all isWithitem && FragSs body
-  | .raise _ e c => FragEs e && FragEs c
-  | .try_ _ b h o f => FragSs b && FragSs h && FragSs o && FragSs f
-  | .handler _ ty _ body => FragEs ty && FragSs body
-  | .assert_ _ t m => FragE t && FragEs m
-  | .import_ .. | .importFrom .. | .global .. | .nonlocal .. | .pass _ | .break_ _ | .continue_ _ => true
-  | .expr _ v => FragE v
-  | .other _ _ es bs => FragEs es && FragSs bs
-def FragSs : List Stmt → Bool
-  | [] => true
-  | s :: ss => FragS s && FragSs ss
-end
 
 def aliasEff (names : List (String × String)) : Eff :=
   { modified := names.map (fun a => .sym (aliasName a)), bound := names.map (fun a => .sym (aliasName a)) }
